@@ -22,10 +22,10 @@ RULE = (
     "depends on a rule-supplied value (the shift pads) or n >= 3"
 )
 SPACE = {
-    "quick": "(a) 16 layouts x n in {2,3,4} x valid shifts x 4 ops x 5 rules x supply routes, `to` explicit and omitted; (b) 17 dim arrangements x 8 shifts x 4 ops x 2 rules; (c) every ordered selection of 2 and 3 axes x shift combos from center x 4 ops x 3 rule sets",
-    "thorough": "(a) n in {2..6}; (b) same with n=3; (c) all shift combos from every start position",
+    "quick": "(a) 16 layouts x n in {2,3,4,5} x valid shifts x 4 ops x 5 rules x supply routes, `to` explicit and omitted; (b) 17 dim arrangements x 8 shifts x 4 ops x 2 rules; (c) every ordered selection of 2 and 3 axes x shift combos from center x 4 ops x 3 rule sets",
+    "thorough": "(a) n in {2..7}; (b) same with n=3; (c) all shift combos from every start position",
 }
-BOUNDS = {"quick": {"n": [2, 3, 4]}, "thorough": {"n": [2, 3, 4, 5, 6]}}
+BOUNDS = {"quick": {"n": [2, 3, 4, 5]}, "thorough": {"n": [2, 3, 4, 5, 6, 7]}}
 ASSUMPTIONS = [
     "linear ops: basis rows give the exact operator matrix, a generic row checks linearity; min/max: rows cover every order type of (left, right, fill)",
     "small integers / dyadic values in float64 so comparisons are exact equality",
